@@ -82,20 +82,26 @@ def _worker(args):
 
 def _replay_worker(args):
     modname, cfg, viol = args
+    import contextlib
+    import io
     try:
         setup_env("real")
         mod = importlib.import_module(modname)
-        return mod.replay(cfg, viol)
+        with contextlib.redirect_stdout(io.StringIO()):
+            return mod.replay(cfg, viol)
     except BaseException as e:
         return {"reproduced": None, "error": "%s: %s\n%s" % (type(e).__name__, e, traceback.format_exc())}
 
 
 def _validate_worker(args):
     modname, cfg, sample = args
+    import contextlib
+    import io
     try:
         setup_env("real")
         mod = importlib.import_module(modname)
-        return mod.validate(cfg, sample)
+        with contextlib.redirect_stdout(io.StringIO()):
+            return mod.validate(cfg, sample)
     except BaseException as e:
         return {"agree": None, "error": "%s: %s\n%s" % (type(e).__name__, e, traceback.format_exc())}
 
